@@ -709,7 +709,15 @@ class PandasMetrics(NDFrame):
         ... )
         """
         if isinstance(risk_free, Number):
-            risk_free = self.make_series_from_cagr(risk_free, "RiskFree")
+            # Level series growing at the given annual rate over calendar
+            # time (years of 365 days, as in nr_years): its CAGR is the rate
+            # that was given, whatever the frequency of the data.
+            years = np.asarray((self.index - self.index[0]).days) / 365
+            risk_free = pd.Series(
+                data=(1 + risk_free) ** years,
+                index=self.index,
+                name="RiskFree",
+            )
 
         # TODO: test tearsheet
         # Ensure that we analyse data over the same time span (daily data)
